@@ -280,6 +280,31 @@ def _raise_guarded(handler, r) -> bool:
 FAILABLE_ATTRS = {"peername": "getpeername() fails on a connection that was reset between accept() and the start of the client task"}
 
 
+def check_errno_tables(eng, run):
+    """the errno tables the accept loop consults (`*_ERRNOS` in lowlevel.constants) really hold errno *numbers*: in the comprehension that
+    builds them, the walrus binds the looked-up errno itself (`(e := getattr(errno, name, None)) is not None`), not the result of the
+    comparison - `e := getattr(...) is not None` makes every element True, the table collapses to {1} and every other accept error
+    leaves the accept loop and stops the server"""
+    m = eng.db.module("lowlevel.constants")
+    n = 0
+    for st in m.tree.body:
+        tgt = st.target if isinstance(st, ast.AnnAssign) else (st.targets[0] if isinstance(st, ast.Assign) and len(st.targets) == 1 else None)
+        if not (isinstance(tgt, ast.Name) and tgt.id.endswith("_ERRNOS")) or getattr(st, "value", None) is None:
+            continue
+        n += 1
+        bad = []
+        for comp in [x for x in ast.walk(st.value) if isinstance(x, (ast.SetComp, ast.ListComp, ast.GeneratorExp))]:
+            elt_names = {x.id for x in ast.walk(comp.elt) if isinstance(x, ast.Name)}
+            for w in [x for x in ast.walk(comp) if isinstance(x, ast.NamedExpr) and x.target.id in elt_names]:
+                if isinstance(w.value, (ast.Compare, ast.BoolOp)) or (isinstance(w.value, ast.UnaryOp) and isinstance(w.value.op, ast.Not)):
+                    bad.append(w)
+        for w in bad[:1]:
+            run.finding("C17.setup", m.relpath, f"{tgt.id} = ...", f"the elements of {tgt.id} are the truth values of `{ast.unparse(w.value)[:60]}`, not errno numbers: the table is {{True}} (= EPERM only), "
+                        "so any other per-connection accept error is re-raised by the accept loop and stops the server for every client")
+        run.ob("C17.setup", f"constants.{tgt.id}:holds-errno-numbers", not bad)
+    run.floor("C17.setup errno tables", n, 2)
+
+
 def check_failable_lookups(eng, run):
     """`X.extra(<attr>)` without a default raises TypedAttributeLookupError (a LookupError) when the attribute's getter fails.
     In per-connection set-up code that runs *before* the per-client catch-all is entered, a lookup of an attribute whose
@@ -545,6 +570,12 @@ def run(eng, run):
     run.attempt(check_progress, eng, run)
     run.attempt(check_close_raises, eng, run)
     run.attempt(check_error_path_constructs, eng, run)
+    run.attempt(check_errno_tables, eng, run)
+    # the UDP per-client state machine: a restart that marks the client pending only after the new task was started raises
+    # 'inconsistent state' in the server's task group under eager task start - one client's traffic stops the server (rules of C16.single)
+    from rules import c16
+    from sa.report import RuleAlias as _RA17
+    run.attempt(c16.check_single_and_atomic, eng, _RA17(run, "C17.root"))
     run.end_of_rules()
 
 
